@@ -59,7 +59,7 @@ MUTS = {
 def load_extra():
     p = os.path.join(os.path.dirname(os.path.abspath(__file__)), "meta_muts_c06.json")
     if os.path.exists(p):
-        for k, v in json.load(open(p)).items():
+        for k, v in json.load(open(p), strict=False).items():
             MUTS[k] = tuple(v)
 
 
